@@ -26,13 +26,33 @@ type c20Msg struct {
 	Zone int   `json:"zone,omitempty"` // zone offset (seconds) the time value is expressed in
 	Retr bool  `json:"retr,omitempty"` // the record is a retraction
 	ET   int64 `json:"et,omitempty"`   // event time the source attached to the record (must be overwritten)
+	G    int64 `json:"g,omitempty"`    // value of the non-time column g (what a WHERE above the function filters on)
 }
 
 type c20Case struct {
 	Msgs    []c20Msg `json:"msgs"`
 	MaxDiff int64    `json:"max_diff"`   // ns, >= 0
 	Res     int64    `json:"resolution"` // ns, > 0; 0 = argument omitted (documented default: one second)
-	TsFirst bool     `json:"ts_first"`   // column order (ts, id) instead of (id, ts)
+	TsFirst bool     `json:"ts_first"`   // column order (ts, id, g) instead of (id, ts, g)
+	Filter  string   `json:"filter,omitempty"` // "" | eq | ne | lt | ge: WHERE w.g <op> FK above the function
+	FK      int64    `json:"fk,omitempty"`
+}
+
+var c20Ops = map[string]string{"eq": "=", "ne": "<>", "lt": "<", "ge": ">="}
+
+// keeps: does the WHERE clause above the function keep a record with this g
+func (c c20Case) keeps(g int64) bool {
+	switch c.Filter {
+	case "eq":
+		return g == c.FK
+	case "ne":
+		return g != c.FK
+	case "lt":
+		return g < c.FK
+	case "ge":
+		return g >= c.FK
+	}
+	return true
 }
 
 func (c c20Case) String() string {
@@ -46,8 +66,15 @@ func (c c20Case) String() string {
 		default:
 			parts[i] = fmt.Sprintf("+%d", m.T)
 		}
+		if !m.WM && c.Filter != "" {
+			parts[i] += fmt.Sprintf("(g=%d)", m.G)
+		}
 	}
-	return fmt.Sprintf("max_diff=%dns resolution=%dns times(ns)=[%s]", c.MaxDiff, c.Res, strings.Join(parts, " "))
+	where := ""
+	if c.Filter != "" {
+		where = fmt.Sprintf(" WHERE w.g %s %d", c20Ops[c.Filter], c.FK)
+	}
+	return fmt.Sprintf("max_diff=%dns resolution=%dns%s times(ns)=[%s]", c.MaxDiff, c.Res, where, strings.Join(parts, " "))
 }
 
 func (c c20Case) sql() string {
@@ -55,15 +82,19 @@ func (c c20Case) sql() string {
 	if c.Res != 0 {
 		res = fmt.Sprintf(", resolution=>INTERVAL %d NANOSECONDS", c.Res)
 	}
-	return fmt.Sprintf("SELECT * FROM max_diff_watermark(source=>TABLE(mem.t), max_diff=>INTERVAL %d NANOSECONDS, time_field=>DESCRIPTOR(ts)%s) w", c.MaxDiff, res)
+	where := ""
+	if c.Filter != "" {
+		where = fmt.Sprintf(" WHERE w.g %s %d", c20Ops[c.Filter], c.FK)
+	}
+	return fmt.Sprintf("SELECT * FROM max_diff_watermark(source=>TABLE(mem.t), max_diff=>INTERVAL %d NANOSECONDS, time_field=>DESCRIPTOR(ts)%s) w%s", c.MaxDiff, res, where)
 }
 
 func (c c20Case) table() (*eng.Table, int) {
 	tsIdx := 1
-	cols, types := []string{"id", "ts"}, []gen.JT{{K: "int"}, {K: "time"}}
+	cols, types := []string{"id", "ts", "g"}, []gen.JT{{K: "int"}, {K: "time"}, {K: "int"}}
 	if c.TsFirst {
 		tsIdx = 0
-		cols, types = []string{"ts", "id"}, []gen.JT{{K: "time"}, {K: "int"}}
+		cols, types = []string{"ts", "id", "g"}, []gen.JT{{K: "time"}, {K: "int"}, {K: "int"}}
 	}
 	tb := &eng.Table{Cols: cols, Types: types, TimeField: -1, NoRetractions: false}
 	for i, m := range c.Msgs {
@@ -71,9 +102,10 @@ func (c c20Case) table() (*eng.Table, int) {
 			tb.Msgs = append(tb.Msgs, mon.Msg{Kind: "wm", T: m.T})
 			continue
 		}
-		vals := make([]gen.JV, 2)
+		vals := make([]gen.JV, 3)
 		vals[tsIdx] = gen.JV{K: "time", I: m.T, Z: m.Zone}
 		vals[1-tsIdx] = gen.Int(int64(i))
+		vals[2] = gen.Int(m.G)
 		tb.Msgs = append(tb.Msgs, mon.Msg{Kind: "rec", Vals: vals, Retr: m.Retr, T: m.ET})
 	}
 	return tb, tsIdx
@@ -98,7 +130,9 @@ func truncTowardZero(t, res int64) int64 { return t / res * res }
 // c20Step is what the statement demands for one source record.
 type c20Step struct {
 	idx    int // index into Msgs
-	pass   bool
+	pass   bool // the record is in the output: above the current watermark and kept by the WHERE clause above the function
+	late   bool // at or below the watermark current at its arrival
+	kept   bool // satisfies the WHERE clause
 	raised bool
 	wm     int64
 }
@@ -117,7 +151,8 @@ func c20Model(c c20Case, round func(t, res int64) int64) []c20Step {
 		if m.WM {
 			continue
 		}
-		st := c20Step{idx: i, pass: !haveWM || m.T > wm}
+		st := c20Step{idx: i, late: haveWM && m.T <= wm, kept: c.keeps(m.G)}
+		st.pass = !st.late && st.kept
 		if !haveMax || m.T > maxSeen {
 			maxSeen, haveMax = m.T, true
 		}
@@ -143,7 +178,7 @@ func c20Compare(c c20Case, tsIdx int, outs []mon.Out, steps []c20Step) error {
 			return fmt.Errorf("record #%d (time %d) must pass (current watermark below it) but is missing at output position %d", st.idx, m.T, p)
 		}
 		rec := outs[p].Rec
-		if len(rec.Values) != 2 || !isTime(rec.Values[tsIdx], m.T) || !isInt(rec.Values[1-tsIdx], int64(st.idx)) {
+		if len(rec.Values) != 3 || !isTime(rec.Values[tsIdx], m.T) || !isInt(rec.Values[1-tsIdx], int64(st.idx)) || !isInt(rec.Values[2], m.G) {
 			return fmt.Errorf("output position %d: got %s, want record #%d (time %d) unchanged", p, rec.String(), st.idx, m.T)
 		}
 		if rec.Retraction != m.Retr {
@@ -178,8 +213,11 @@ func c20Compare(c c20Case, tsIdx int, outs []mon.Out, steps []c20Step) error {
 			if err := takeRec(st); err != nil {
 				return err
 			}
-		} else if p < len(outs) && !outs[p].IsWM && len(outs[p].Rec.Values) == 2 && isInt(outs[p].Rec.Values[1-tsIdx], int64(st.idx)) {
-			return fmt.Errorf("output position %d: record #%d (time %d) is at or below the current watermark %d and must be dropped, got %s", p, st.idx, c.Msgs[st.idx].T, lastWM, outs[p].Rec.String())
+		} else if p < len(outs) && !outs[p].IsWM && len(outs[p].Rec.Values) == 3 && isInt(outs[p].Rec.Values[1-tsIdx], int64(st.idx)) {
+			if !st.late {
+				return fmt.Errorf("output position %d: record #%d (g=%d) does not satisfy the WHERE clause, got %s", p, st.idx, c.Msgs[st.idx].G, outs[p].Rec.String())
+			}
+			return fmt.Errorf("output position %d: record #%d (time %d) is at or below the current watermark of the function's input (%d) and must be dropped, got %s", p, st.idx, c.Msgs[st.idx].T, lastWM, outs[p].Rec.String())
 		}
 		if st.raised && !wmDone && !takeWM(st) {
 			got := "nothing"
@@ -208,12 +246,19 @@ func c20Prop(r *ev.Rec) func(c c20Case) ev.Outcome {
 		if res == 0 {
 			res = 1e9
 		}
+		filteredRaised, keptPassed := 0, 0
 		for _, st := range steps {
-			if !st.pass {
+			if st.late {
 				dropped++
 			}
 			if st.raised {
 				wms++
+			}
+			if st.raised && !st.kept {
+				filteredRaised++
+			}
+			if st.pass {
+				keptPassed++
 			}
 		}
 		for _, m := range c.Msgs {
@@ -229,6 +274,10 @@ func c20Prop(r *ev.Rec) func(c c20Case) ev.Outcome {
 			}
 		}
 		o := ev.Outcome{NonTrivial: dropped >= 1 && wms >= 2}
+		if c.Filter != "" {
+			// the WHERE clause removes a record that raised a watermark, and something still passes
+			o.NonTrivial = filteredRaised >= 1 && wms >= 2 && keptPassed >= 1
+		}
 		cl := func(b bool, s string) {
 			if b {
 				o.Classes = append(o.Classes, s)
@@ -243,6 +292,9 @@ func c20Prop(r *ev.Rec) func(c c20Case) ev.Outcome {
 		cl(c.MaxDiff == 0, "max_diff_zero")
 		cl(res < 1e9, "resolution_sub_second")
 		cl(len(steps) == 0, "empty_stream")
+		cl(c.Filter != "", "where_above_function_"+c.Filter)
+		cl(filteredRaised > 0, "where_removes_a_watermark_raising_record")
+		cl(c.Filter != "" && dropped > 0 && filteredRaised > 0, "where_removes_raiser_and_input_has_late_record")
 
 		for _, optimize := range []bool{true, false} {
 			plan, cerr := eng.Compile(ctx, c.sql(), env, eng.Options{Optimize: optimize, Raw: true})
@@ -352,7 +404,7 @@ func c20Gen(t *rapid.T) c20Case {
 		if cur > 1<<61 || cur < -(1<<61) {
 			cur = base
 		}
-		m := c20Msg{T: cur}
+		m := c20Msg{T: cur, G: rapid.Int64Range(0, 3).Draw(t, "g")}
 		if rapid.IntRange(0, 7).Draw(t, "zoned") == 0 {
 			m.Zone = rapid.SampledFrom([]int{3600, -7200, 19800}).Draw(t, "zone")
 		}
@@ -367,6 +419,14 @@ func c20Gen(t *rapid.T) c20Case {
 	return c
 }
 
+// c20GenFilter: the same streams under SELECT * FROM max_diff_watermark(...) w WHERE w.g <op> k.
+func c20GenFilter(t *rapid.T) c20Case {
+	c := c20Gen(t)
+	c.Filter = rapid.SampledFrom([]string{"eq", "ne", "lt", "ge"}).Draw(t, "filter")
+	c.FK = rapid.Int64Range(0, 3).Draw(t, "fk")
+	return c
+}
+
 func TestC20(t *testing.T) {
 	r := ev.New("C20", "exploration",
 		"rapid cases: 0-10 records (id, ts) whose time field walks in quarter-resolution steps around a base (the epoch, just before it, 1900, 2017.5, random within +-2^60 ns), "+
@@ -374,8 +434,11 @@ func TestC20(t *testing.T) {
 			"each case runs through the real SQL pipeline (optimised and not) over an in-memory table. Oracle: int64 floor-division model of the statement: watermark sequence = strictly increasing values of "+
 			"floor(max time, resolution) - max_diff; a record passes iff its time > watermark current at its arrival (before the first watermark everything passes), unchanged, event time = time field; "+
 			"no other watermark (the source's own) appears; record/watermark order of one step is free but no record may follow a watermark at or above its time. "+
-			"non-trivial: >= 1 dropped record and >= 2 watermarks; distinct: case JSON",
+			"non-trivial: >= 1 dropped record and >= 2 watermarks; distinct: case JSON. "+
+			"where_above_function: the same streams under ... w WHERE w.g = | <> | < | >= k on the third, non-time column g in 0..3 (optimiser on, and off as control): the statement is about the function's input stream, "+
+			"so watermarks and drops must be those of the unfiltered input and the output records are the model's passed records that satisfy the predicate; non-trivial there: the WHERE clause removes a record that raised a watermark, >= 2 watermarks, >= 1 record passes",
 		"times within +-2^61 ns of the epoch (time.UnixNano is undefined outside 1678..2262)")
 	prop := c20Prop(r)
-	ev.Check(t, r, "watermarks_and_drops", ev.N(150000, 3000000), c20Gen, prop)
+	ev.Check(t, r, "watermarks_and_drops", ev.N(100000, 2000000), c20Gen, prop)
+	ev.Check(t, r, "where_above_function", ev.N(60000, 1200000), c20GenFilter, prop)
 }
